@@ -34,3 +34,13 @@ silent("C31", "seeds-renamed",
 silent("C31", "results-through-list-then-tuple",
        [(DQ, "            exec_map = executor.map(_simulate_wrapper, vanilla_circuits, simulate_kwargs)\n            results = tuple(exec_map)",
              "            exec_map = list(executor.map(_simulate_wrapper, vanilla_circuits, simulate_kwargs))\n            results = tuple(exec_map)")])
+
+SMP = "pennylane/devices/qubit/sampling.py"
+NAPI = "pennylane/concurrency/executors/native/api.py"
+fire("C31", "executor-collects-in-completion-order",
+     (NAPI, "from functools import partial\n", "from functools import partial\nfrom concurrent.futures import as_completed\n"),
+     "R-C31-order", "as_completed")
+fire("C31", "sum-measurement-drops-rng-in-closure",
+     (SMP, "            is_state_batched=is_state_batched,\n            rng=rng,\n            prng_key=prng_key,\n        )\n        return sum(results)",
+           "            is_state_batched=is_state_batched,\n            prng_key=prng_key,\n        )\n        return sum(results)"),
+     "R-C31-thread", "_measure_sum_with_samples")
